@@ -16,7 +16,8 @@ func init() {
 		Level: "exploration",
 		Rule: "every element type x channel counts 1..8 x every root shape (L<=K<=bound, also non-frame-aligned lengths) x ALL (start,end) in [-2,K+2]^2 on the root and recursively on every valid child up to nesting depth 4, plus hostile 64-bit integers chosen so that channels*start or channels*end wraps into the valid range; " +
 			"each Slice call is compared with the reference model (validity decided without multiplication; shape, base address = parent base + C*start*size, all cells over the child's capacity) and stamps are written through child and parent and looked for through the other; " +
-			"distinct = distinct (type, C, root shape, nesting path, start, end); non-trivial = the call either must panic or yields a view with capacity > 0",
+			"distinct = distinct (type, C, root shape, nesting path, start, end); non-trivial = the call either must panic or yields a view with capacity > 0; " +
+			"also: every pair of hostile integers as (start,end)",
 		Assume: []string{"panic messages are not compared, only panic / no panic", "address identity from the verif hook; all buffers stay pinned during a case"},
 		Plan:   func(tier string) []Batch { return split("slice", 8, 900) },
 		Run:    runC02,
